@@ -112,7 +112,7 @@ class _Decode:
 class C02(Prop):
     id = "C02"
     corr_module = "Corr.C02Corr"
-    preds = ("corr", "spec", "repaired_ok")
+    preds = ("corr", "spec")
     quick_n = 1800
     thorough_n = 20000
     shard_size = 250
@@ -136,6 +136,12 @@ class C02(Prop):
         "closed and the buffer is drained; reads deliver the written bytes in order without loss",
         "encodings utf-8, latin-1, ascii; UTF-16 and other stateful codecs not modelled",
         "capture buffers are read only after the worker was joined (C08 invariant)",
+        "since the F-C02 fix output is decoded by a codecs incremental decoder inside read_proc_output: a "
+        "subclass overriding Runner.decode() no longer influences how OUTPUT is decoded (decode() is still "
+        "used for byte-mode input streams)",
+        "CPython's incremental UTF-8 decoder holds back a truncated ED A0..BF pair until the next read: per-read "
+        "pieces (and so the growing prefixes shown to watchers) can lag the model by one read in that corner; "
+        "the correspondence compares the four texts",
     ]
     not_modelled = [
         "scheduler preemption inside a Python statement; real thread interleavings between the two workers "
@@ -240,12 +246,7 @@ class C02(Prop):
                                     " async" if case["async"] else "", "0" if n == 0 else "1" if n == 1 else "2+")
 
     def finding_of(self, case, obs):
-        if case["enc"] != "utf-8" or not obs["done"]:
-            return None
-        streams = ["out"] if case["pty"] else ["out", "err"]
-        if any(cut_inside_sequence(chunks_before_eof(case, w)) for w in streams):
-            return "F-C02"
-        return None
+        return None          # F-C02 is fixed (incremental decoder): a cut character is a VIOLATION again
 
     _budget = rc.ShrinkBudget(45.0)
 
@@ -344,7 +345,7 @@ class C02(Prop):
                 "note": "python3 children writing the payload in one go and exiting immediately, run through "
                         "Local (hide=True, in_stream=False); captured text compared with the decoding of the "
                         "payload.  'straddle' = 999 ASCII bytes + 2-byte characters, so the 1000-byte read "
-                        "cuts a character (F-C02 witness on the real runner)"}
+                        "cuts a character (regression witness of the fixed F-C02)"}
 
 
 def payload(kind, n, tag):
@@ -391,11 +392,6 @@ def real_child_case(c):
     got = (r["stdout"], r["stderr"])
     if got == (want_out, want_err):
         return None
-    if c["kind"] == "straddle":
-        per1000 = lambda b: "".join(b[i:i + 1000].decode(enc, "replace") for i in range(0, len(b), 1000))
-        if got == (per1000(out), per1000(err)):
-            return {"case": c, "finding": "F-C02",
-                    "what": "multi-byte character cut by the 1000-byte read decoded as U+FFFD U+FFFD"}
     def first_diff(a, b):
         k = next((i for i, (x, y) in enumerate(zip(a, b)) if x != y), min(len(a), len(b)))
         return {"at": k, "want_len": len(b), "got_len": len(a), "got": a[max(0, k - 5):k + 10],
